@@ -72,6 +72,12 @@ func execRel(r *RNG, c *Case) {
 	case "snpsagg":
 		a = runSnps(c, false)
 		b = runSnps(c, true)
+	case "aggpipe": // the aggregate table written in-process against the binary's, read through a slow pipe
+		cc := cloneCase(c)
+		cc.Set("via", "").SetInt("thrn", 0).SetInt("thrd", 1)
+		a, b = runSnps(cc, true), runSnpsSlowPipe(cc)
+	case "samefile":
+		a, b = runSameFile(c)
 	case "bigref":
 		a, b = runBigRef(c)
 	case "gfffasta":
@@ -135,6 +141,19 @@ func init() {
 	execs["C17var"] = func(r *RNG, c *Case) { execs[c.Prop](r, c) }
 	// C13: aggregate = counted per-sequence output
 	gens["C13"] = func(r *RNG, id string) *Case {
+		if r.Chance(1, 60) {
+			// an aggregate table of well over 64 KiB (thousands of distinct SNPs) going to a pipe with a slow reader: every
+			// line must arrive (a writer that is still flushing when the command returns loses the highest positions)
+			c := NewCase("C03", id)
+			w := r.Range(5000, 7000)
+			ref := randSeq(r, w, symACGT, false)
+			var seqs []string
+			for i := 0; i < 4; i++ {
+				seqs = append(seqs, mutateSeq(r, ref, symACGT, 9, 10, false))
+			}
+			c.SetBool("hard", false).Set("ref", ref).Set("names", "a,b,c,d").Set("seqs", strings.Join(seqs, ",")).SetBool("agg", true)
+			return relOf(c, "aggpipe", "same")
+		}
 		if r.Chance(1, 3) {
 			c := c03Gen(r, id, true)
 			if r.Bool() {
@@ -176,6 +195,13 @@ func init() {
 					names[0], names[i] = names[i], names[0]
 					seqs[0], seqs[i] = seqs[i], seqs[0]
 				}
+			}
+			if r.Chance(1, 3) {
+				// `cat ref.fa aln.fa | gofasta variants -r REF` where aln.fa holds the reference too: its ID occurs again
+				at := 1 + r.Intn(len(names))
+				names = append(names[:at:at], append([]string{names[0]}, names[at:]...)...)
+				seqs = append(seqs[:at:at], append([]string{seqs[0]}, seqs[at:]...)...)
+				c.Tag("reference-record-twice")
 			}
 			c.Set("names", strings.Join(names, ",")).Set("seqs", strings.Join(seqs, ","))
 			return relOf(c, "stdin", "eq")
